@@ -16,7 +16,7 @@ import json, os, re, shutil, subprocess, sys, tempfile, glob, concurrent.futures
 
 VERIF = os.path.dirname(os.path.dirname(os.path.abspath(__file__)))
 REPO = os.environ.get("TDX_REPO", "/repo")
-BIN = os.path.join(VERIF, "bin", "tdxlint")
+BIN = os.environ.get("TDXBIN", os.path.join(VERIF, "bin", "tdxlint"))
 
 def load_corpus(prop):
     out = []
